@@ -191,9 +191,10 @@ func (n *Network) edgeBetween(uid, vid int64, directed bool) *Link {
 						// make sure that control node is on the outgoing side
 						if uNode != nil {
 							return incoming
-						} else {
-							return nil
 						}
+						// the control node is on the incoming side: this link does not answer the query, but
+						// the same node may also be one of the control node's outputs
+						break
 					}
 				}
 			}
